@@ -22,14 +22,16 @@ from vlib import core, upstream, scenario, geo
 PID = 'C01'
 LEVEL = 'exploration'
 BUDGET_S = {'quick': 42, 'thorough': 640}
-FLOORS = {'quick': {'scenarios': 30, 'getmap_requests': 200, 'strong_pixels_judged': 6000000, 'weak_pixels': 5000,
-                    'exact_tile_requests': 45, 'exact_pixels_judged': 45000, 'featureinfo_requests': 90,
-                    'featureinfo_regridded': 50, 'wmts_featureinfo_requests': 25, 'reprojected_requests': 100,
-                    'v130_requests': 110, 'mean_shift_judged': 300},
-          'thorough': {'scenarios': 600, 'getmap_requests': 4000, 'strong_pixels_judged': 120000000, 'weak_pixels': 500000,
-                       'exact_tile_requests': 900, 'exact_pixels_judged': 900000, 'featureinfo_requests': 1800,
-                       'featureinfo_regridded': 1000, 'wmts_featureinfo_requests': 500, 'reprojected_requests': 2000,
-                       'v130_requests': 2200, 'mean_shift_judged': 6000}}
+# floors: about 40% of what seed 0 reaches on an otherwise idle machine would be twice these numbers; the quick tier was
+# also run while 16 other check shards competed for the cores (3-4x slower) and has to stay conclusive then
+FLOORS = {'quick': {'scenarios': 25, 'getmap_requests': 160, 'strong_pixels_judged': 4000000, 'weak_pixels': 50000,
+                    'exact_tile_requests': 30, 'exact_pixels_judged': 30000, 'featureinfo_requests': 60,
+                    'featureinfo_regridded': 20, 'wmts_featureinfo_requests': 10, 'reprojected_requests': 70,
+                    'v130_requests': 80, 'mean_shift_judged': 200},
+          'thorough': {'scenarios': 500, 'getmap_requests': 3500, 'strong_pixels_judged': 100000000, 'weak_pixels': 2000000,
+                       'exact_tile_requests': 900, 'exact_pixels_judged': 900000, 'featureinfo_requests': 2000,
+                       'featureinfo_regridded': 1000, 'wmts_featureinfo_requests': 500, 'reprojected_requests': 1600,
+                       'v130_requests': 2000, 'mean_shift_judged': 5000}}
 RULE = ("case = one generated scenario (shape cached_wms | cascaded_wms | tile_src | cache_of_cache | restricted_srs | "
         "coverage x grid SRS 3857/4326/25832 x origin x tile size x f2/custom ladder x meta size/buffer x backend x "
         "upstream WMS version x resampling) driven by 8-12 GetMap requests and 1-2 WMS (+2 WMTS) GetFeatureInfo requests of 3-4 "
@@ -542,7 +544,10 @@ def gen_requests(rng, spec, n_map, n_fi):
                              'tile': [col, row, z], 'bbox': list(tile_rect(lg, col, row, z)), 'size': [tw, th],
                              'clicks': [list(c) for c in rng.sample(clicks, 3)], 'scale_class': 'tile',
                              'pos_class': 'edge' if col in (0, nx - 1) or row in (0, ny - 1) else 'mid'})
-    return reqs
+    # feature-info requests after the third GetMap: a shard that runs out of budget mid-scenario still reaches them
+    maps = [r for r in reqs if r['kind'] == 'map']
+    infos = [r for r in reqs if r['kind'] != 'map']
+    return maps[:3] + infos + maps[3:]
 
 
 def wmts_fi_url(spec, req, click):
@@ -1042,8 +1047,15 @@ def run_exact(run, case, spec, reqs, d):
         mech = {'shape': spec['shape'], 'family': 'exact', 'cached': True, 'reprojected': False}
         if resp.code != 200 or resp.content_type != 'image/png':
             run.judge(cls, nontrivial=False)
+            r_ = g['res'][z]
+            if (min(rect[2], g['bbox'][2]) - max(rect[0], g['bbox'][0]) < 2 * r_ or
+                    min(rect[3], g['bbox'][3]) - max(rect[1], g['bbox'][1]) < 2 * r_):
+                # the tile reaches less than two pixels into the grid extent: nothing would be judged. (Seen: HTTP 500
+                # "Invalid BBOX" when the overlap is below a tenth of a pixel - robustness, not placement.)
+                run.dc('exact_tile_without_interior_pixel')
+                continue
             run.violation(dict(mech, clause='no_image'), case, 'exact-tile GetMap %s answered %d %r' % (
-                map_url(q), resp.code, resp.body[:300]))
+                map_url(q), resp.code, resp.body[-300:]))
             continue
         arr = np.asarray(resp.image().convert('RGBA'))
         if arr.shape[:2] != (th, tw):
